@@ -4,6 +4,17 @@
 let () =
   List.iter (fun line ->
     match split_ws line with
+    | id :: "P" :: toks ->
+      (* builder level: the model's result is the same for every cache behaviour (theorem
+         C16_cache_transparent); run it with two different forgetting streams as a sanity test *)
+      let (order, ops, _) = parse_prog toks in
+      let show rem = match run_prog rem (bstate_init order) ops with
+        | None -> "NONE"
+        | Some st -> let buf = Buffer.create 256 in
+          List.iteri (fun k p -> Buffer.add_string buf (if k = 0 then "" else " | "); bdd_str buf p) st.bpool;
+          Buffer.contents buf in
+      let a = show all_remembered and b = show (fun n -> int_of_nat n mod 3 = 0) in
+      print_endline (id ^ " " ^ (if a = b then a else "MODEL-CACHE-DEPENDENT"))
     | id :: cap :: rest ->
       let t = ref (lru_new (nat_of_int (int_of_string cap))) in
       let buf = Buffer.create 64 in
